@@ -236,7 +236,19 @@ def run(ctx):
                 ln = ln[:12] + " SG " + ln[16:76] + " S" + ln[78:]
         s195c.append(ln)
     coupled_starts.append(("3SGB-S195C", C.join(s195c), []))
-    cases = runbank.base_cases(ctx) + coupled_starts + ion_constructs(ctx, cfgt) + twin_ion_constructs(ctx) + like_charge_constructs(ctx) + runbank.kit_cases(ctx, every=1 if ctx.thorough() else 5)
+    # an alt-loc point mutant whose variant A holds a base with acid partners (ARG E 138 of 3SGB; variant B is ALA): the
+    # pair exists in one conformation only, and there its two Coulomb determinants are equal and opposite all the same
+    mut = []
+    for ln in C.body(C.test_pdb_text("3SGB")):
+        if C.is_atom(ln) and ln[21] == "E" and ln[17:20] == "ARG" and int(ln[22:26]) == 138 and ln[26] == " ":
+            mut.append(ln[:16] + "A" + ln[17:])
+        else:
+            if mut and C.is_atom(mut[-1]) and mut[-1][17:20] == "ARG" and mut[-1][21] == "E" and int(mut[-1][22:26]) == 138 and \
+                    not (C.is_atom(ln) and ln[21] == "E" and int(ln[22:26]) == 138 and ln[26] == " "):
+                arg = [x for x in mut if C.is_atom(x) and x[17:20] == "ARG" and x[21] == "E" and int(x[22:26]) == 138]
+                mut += [x[:16] + "B" + "ALA" + x[20:] for x in arg if x[12:16].strip() in ("N", "CA", "C", "O", "CB")]
+            mut.append(ln)
+    cases = runbank.base_cases(ctx) + [("3SGB-altloc-mutant-E138-ARG/ALA", C.join(mut), [])] + coupled_starts + ion_constructs(ctx, cfgt) + twin_ion_constructs(ctx) + like_charge_constructs(ctx) + runbank.kit_cases(ctx, every=1 if ctx.thorough() else 5)
     # parameter files that change the desolvation model but none of the configured bounds
     from . import c02
     variants = {"allow005": {"desolvationAllowance": 0.05}, "allow015": {"desolvationAllowance": 0.15},
@@ -272,13 +284,16 @@ def run(ctx):
     ctx.extra["ion_determinants_checked"] = sum(m.get("ion_dets", 0) for m in metas)
     # shared_determinants 1 overwrites, inside a coupled system, every member's determinant from a partner with the largest
     # one: that is what the setting is for, and it leaves the signs and the bounds intact but not the "equal and opposite"
-    # clause (which the statement makes about the model as configured by default), so that clause is not asked of these runs
+    # clause (which the statement makes about the model as configured by default), so that clause is not asked of these runs;
+    # nor is the backbone sign clause: an amino terminus that shares the backbone term of its own residue's carboxylate gets
+    # it with the acid's sign
     sh = [("[shared" in m["input"] or "+shared" in m["input"]) for m in metas]
     viol = runbank.validate(ctx, [r for r, s_ in zip(recs, sh) if not s_], [m for m, s_ in zip(metas, sh) if not s_],
                             runbank.RUN_INV["C16"])
     if any(sh):
         v2 = runbank.validate(ctx, [r for r, s_ in zip(recs, sh) if s_], [m for m, s_ in zip(metas, sh) if s_],
-                              [i for i in runbank.RUN_INV["C16"] if i != "C16_AcidBasePair"], label="runs with shared determinants")
+                              [i for i in runbank.RUN_INV["C16"] if i not in ("C16_AcidBasePair", "C16_Backbone")],
+                              label="runs with shared determinants")
         for inv, lst in v2.items():
             viol.setdefault(inv, []).extend(lst)
     for inv, lst in sorted(viol.items()):
